@@ -143,6 +143,7 @@ def check_C12(c):
 
 def check_C14(c):
     mc_deflate_core(c)
+    c.model_check("MC_DeflateStream", "MC_DeflateStream.cfg", workers=6)
     c.scenario("deflate_protocol")
     return c.finish("model_checking", RULE_COMP, TRUST)
 
